@@ -67,6 +67,23 @@ def race_rounds(rng, thorough):
             rounds.append({"warm": "", "prog": f"[1.try.nosuch_{t}.err.S, _, Either.A, nil.try.{{|u| 1 / 0}}.A, Int.keys.len]"})
         else:              # strings shared through the table used as map keys in every evaluation
             rounds.append({"warm": f"sh_{t} := 1", "prog": f'ks := "sh_{t} := 1; o_{t}_g@G@ := 2".evalEnv.keys; m := %{{}}; ks@{{|k| %{{k: 1}}[k]}}; ks@{{|k| k == "sh_{t}"}}'})
+    # two roles meeting for many repetitions: one side keeps changing a shared table, the other keeps reading it (a window of a few
+    # instructions is only met under sustained overlap)
+    for k in range(12 if thorough else 6):
+        t = f"s{k}_{rng.randint(0, 10**6)}"
+        kind = k % 6
+        if kind == 0:      # new symbols interned (JSON keys) while others convert known symbols back to strs (evalEnv / items)
+            rounds.append({"warm": f"kn_{t} := 1", "prog": f'JSON.dec(`{{"nk_{t}_g@G@_r@R@": 1}}`).keys', "prog2": f'"kn_{t} := 1; kb := 2".evalEnv.items', "reps": 150})
+        elif kind == 1:    # new identifiers evaluated while others import a standard module (Env.Items over its scope)
+            rounds.append({"warm": "", "prog": f"id_{t}_g@G@_r@R@ := 1", "prog2": 'import("dummy").keys', "reps": 120})
+        elif kind == 2:    # new keyword names / argument counts while others call with known ones
+            rounds.append({"warm": "", "prog": f"{{|x, kk_{t}_g@G@_r@R@: 1| \\_}}(1, zz_{t}_r@R@: 2)", "prog2": f"{{|x, kk_{t}: 1| [x, \\_]}}(1, kk_{t}: 3)", "reps": 150})
+        elif kind == 3:    # strs turned into symbols at run time while others hash shared strs
+            rounds.append({"warm": f"hs_{t} := 1", "prog": f'"dy_{t}_g@G@_r@R@".sym?; %{{"dy_{t}_g@G@_r@R@": 1}}.O.keys', "prog2": f'ks := "hs_{t} := 1".evalEnv.keys; ks@{{|k| %{{k: 1}}[k]}}', "reps": 150})
+        elif kind == 4:    # everybody both interns and converts back
+            rounds.append({"warm": "", "prog": f'"bo_{t}_g@G@_r@R@ := 1; sh := 2".evalEnv.items', "prog2": "", "reps": 100})
+        else:              # property lookups by new names (NoPropErr path interns the name) against lookups of known names
+            rounds.append({"warm": "", "prog": f"1.try.np_{t}_g@G@_r@R@.err.msg", "prog2": "[1.S, [1, 2].len, {a: 1}.keys, \"ab\".uc]", "reps": 150})
     return rounds
 
 
@@ -95,10 +112,16 @@ def http_phase(rng, nreq, blocking=False):
             reqs.append({"method": "GET", "path": "/env", "headers": {}, "body": ""})
         else:
             reqs.append({"method": "GET", "path": f"/q?qk{t}x{i}=1&common=2", "headers": {}, "body": ""})
-    # quiet stretch: handlers only read variables of the global scope while the main script reassigns them (no new symbol on either side)
-    reqs += [{"method": "GET", "path": "/g", "headers": {}, "body": ""} for _ in range(nreq)]
-    main = [f"m{t}x{i} := {i}; {{mk{t}x{i}: m{t}x{i}}}.keys; \"mk{t}x{i} := 1\".evalEnv.keys" for i in range(nreq // 2)]
-    main += [f"ga{t} := ga{t} + 1; gb{t} := [ga{t}]; gc{t} := gb{t}.len" for _ in range(4 * nreq)]
+    # handlers that only read variables of the global scope, interleaved with the others from the first request on, while the main script
+    # keeps reassigning those variables (no new symbol on either side) and now and then defines new ones: both go on for the whole phase
+    mixed = []
+    for r in reqs:
+        mixed += [r, {"method": "GET", "path": "/g", "headers": {}, "body": ""}]
+    reqs = mixed + [{"method": "GET", "path": "/g", "headers": {}, "body": ""} for _ in range(nreq)]
+    main = []
+    for i in range(nreq // 2):
+        main.append(f"m{t}x{i} := {i}; {{mk{t}x{i}: m{t}x{i}}}.keys; \"mk{t}x{i} := 1\".evalEnv.keys")
+        main += [f"ga{t} := ga{t} + 1; gb{t} := [ga{t}]; gc{t} := gb{t}.len" for _ in range(30)]
     script = HTTP_SCRIPT % (t, t, t, t)
     if blocking:          # Server.serve without background: the call never returns, handlers still run on goroutines of their own
         script = script.replace("stop := http.S.serve(", "http.S.serve(").replace("background: true, ", "")
